@@ -381,6 +381,7 @@ type unitAgg struct {
 	checkedOpnd map[string]bool
 	checkedVal  map[string]bool
 	fails       map[string]*failAgg
+	zeroSeen    map[string]int64 // vector units: compared cases per zero pattern of the operand data
 }
 
 func newUnitAgg(head string) *unitAgg {
